@@ -234,7 +234,14 @@ def _nanhole(p, x):
     if d < p['r2']: return nan
     return _quad(p, x)
 
-MODELS = {'quad': _quad, 'rosen': _rosen, 'abs': _abs, 'quant': _quant, 'infband': _infband,
+def _slab(p, x):
+    # quadratic + a high-cost slab lo < x[i] < hi (CollapseCost workloads)
+    v = _quad(p, x)
+    lo, hi = p['slab']
+    if lo < x[p.get('i', 0)] < hi: v += p.get('H', 100.0)
+    return v
+
+MODELS = {'slab': _slab, 'quad': _quad, 'rosen': _rosen, 'abs': _abs, 'quant': _quant, 'infband': _infband,
           'flat': _flat, 'tied': _tied, 'maxabs': _maxabs, 'vector': _vector, 'nanhole': _nanhole}
 
 def eval_model(spec, xt):
@@ -298,6 +305,17 @@ def con_apply(spec, x):
             x = con_apply(s, x)
     elif fam == 'identity':
         pass
+    elif fam == 'measure_norm':
+        # flattened product measure: per measure the weights are made non-negative and sum to one
+        o = 0
+        for n in p['npts']:
+            w = [v if (v == v and v > 0.0) else 0.0 for v in x[o:o + n]]
+            t = 0.0
+            for v in w: t += v
+            if t > 0.0 and t < inf: w = [v / t for v in w]
+            # (no positive weight left: leave the zeros; a user constraint must not undo a zeroed weight)
+            x[o:o + n] = w
+            o += 2 * n
     else:
         raise HarnessError("unknown constraint family %r" % fam)
     return x
